@@ -160,7 +160,7 @@ theorem C16_source_shape :
     Gen.Lru.loadAndDeleteAllInside = true ∧ Gen.Lru.lenAllInside = true ∧
     Gen.Lru.sizeAllInside = true ∧ Gen.Lru.evictCallers = ["Put"] ∧
     Gen.Lru.evictVictim = "Back" ∧ Gen.Lru.putInsert = "PushFront" ∧
-    Gen.Lru.getTouch = "MoveToFront" := by decide
+    Gen.Lru.getTouch = "MoveToFront" ∧ Gen.Lru.rangeSafe = true := by decide
 
 /-- The cache as a mutex-protected object, for ANY decomposition of a call's
 critical section into micro-steps that composes to `step`. -/
